@@ -569,8 +569,10 @@ def resetTo (cfg : Cfg) (s : State) (cp : Checkpoint) : R State :=
       match s.chunks[i]? with
       | none => throw (.contract "checkpoint does not refer to a chunk of this arena")
       | some c =>
-        if c.contentStart cfg ≤ cp.addr ∧ cp.addr ≤ c.contentEnd cfg then
-          pure { setPos s i cp.addr with cur := .chunk i }
+        if c.contentStart cfg ≤ cp.addr ∧ cp.addr ≤ c.contentEnd cfg then do
+          -- the checkpoint may stem from a region with a lower minimum alignment: re-align
+          let p ← liftM (Gen.LibArith.align_pos cfg.up s.minAlign cp.addr)
+          pure { setPos s i p with cur := .chunk i }
         else throw (.contract "checkpoint address outside its chunk")
     | _ => throw (.contract "checkpoint of a claimed / unallocated arena")
 
